@@ -51,6 +51,7 @@ structure Sys where
   stream : List Nat := []         -- ghost: what the volume holds (what an RW replica reads back)
   acked  : List Nat := []         -- ghost: the writes acknowledged to the initiator
   next   : Nat := 0
+  ackedEpoch : List Nat := []     -- ghost: the writes acknowledged since the volume was last started
   nextSnap : Nat := 0             -- id of the next volume snapshot
   taken  : List (Nat × List Nat) := []   -- ghost: every volume snapshot with the volume's content when it was taken
 
@@ -78,7 +79,7 @@ def regs (s : Sys) : List Reg :=
 /-- `Controller.Start` of the elected replica: it becomes the first RW replica, the volume is what
     it holds -/
 def start (s : Sys) (e : Nat) : Sys :=
-  { (s.setNode e { s.node e with att := .rw }) with up := true, stream := (s.node e).log }
+  { (s.setNode e { s.node e with att := .rw }) with up := true, stream := (s.node e).log, ackedEpoch := [] }
 
 /-- the candidate the election loop starts from: the leader so far unless it is rebuilding, else the
     replica that registers -/
@@ -126,7 +127,8 @@ def stepWrite (s : Sys) (fails applied : List Nat) : Sys × Out :=
   let nF := s.idx.countP fun i => (s.node i).att ≠ .none ∧ fails.contains i
   let s' : Sys := { s with node := s.writeNode fails applied, next := s.next + 1, stream := s.stream ++ [s.next] }
   let ok := Ctl.majorityOk nM nF && decide (s'.rwCount > 0)
-  ({ s' with acked := if ok then s.acked ++ [s.next] else s.acked }, if ok then .ok else .failed)
+  ({ s' with acked := if ok then s.acked ++ [s.next] else s.acked,
+             ackedEpoch := if ok then s.ackedEpoch ++ [s.next] else s.ackedEpoch }, if ok then .ok else .failed)
 
 /-- `AddReplica` on the controller's side (`sync.Task.AddReplica` → `CreateReplica`): a WO replica is
     attached.  Its directory is what it was; the writes it receives while WO are not counted and are
